@@ -110,6 +110,10 @@ type Ctx struct {
 	maxViol  int
 	expired  bool
 	marks    int64
+	// stall watchdog (checks without MarkCases): last owned index, its time, the last key seen by Skip
+	progIdx atomic.Int64
+	progAt  atomic.Int64
+	progKey atomic.Pointer[string]
 }
 
 // Thorough reports whether the thorough tier is running.
@@ -152,11 +156,18 @@ func (c *Ctx) Next() bool {
 	if c.fam != nil {
 		c.fam.Evaluated++
 	}
+	c.progIdx.Store(i)
+	c.progAt.Store(time.Now().UnixNano())
 	return true
 }
 
-// Skip reports whether a case key is excluded by --only (replay of one case).
-func (c *Ctx) Skip(key string) bool { return c.Only != "" && c.Only != key }
+// Skip reports whether a case key is excluded by --only (replay of one case). As every check calls it with the key
+// of the case it is about to run, it also is the progress signal of the stall watchdog.
+func (c *Ctx) Skip(key string) bool {
+	c.progKey.Store(&key)
+	c.progAt.Store(time.Now().UnixNano())
+	return c.Only != "" && c.Only != key
+}
 
 // Expire marks the run as cut short by the internal deadline.
 func (c *Ctx) Expire() {
@@ -440,6 +451,10 @@ func Main() {
 	os.Exit(parent(ch, tier, only, seed, listFailing))
 }
 
+// StallTimeout is the time without a new case after which a worker of a check without MarkCases gives up on the
+// case in progress (see the stall watchdog in worker).
+var StallTimeout = 120 * time.Second
+
 func budget(ch *Check, tier string) time.Duration {
 	b := ch.QuickBudget
 	if tier == "thorough" {
@@ -491,8 +506,40 @@ func worker(ch *Check, tier, shard, out, only string, seed, from int64) {
 			}()
 		}
 	}
+	if !ch.MarkCases && out != "" {
+		// Stall watchdog: a case that blocks in Go code (a lock left locked, a channel nobody writes) is beyond the
+		// VM watchdog of internal/run. When no case has been started for StallTimeout, the case in progress is
+		// recorded like a marked case, what was found so far is made durable, and the worker exits; the parent
+		// reports "did not return" for that case and resumes behind it.
+		c.ckptPath = out + ".ckpt"
+		c.progAt.Store(time.Now().UnixNano())
+		go func() {
+			for {
+				time.Sleep(time.Second)
+				if time.Since(time.Unix(0, c.progAt.Load())) <= StallTimeout {
+					continue
+				}
+				key := "(case without key)"
+				if k := c.progKey.Load(); k != nil {
+					key = *k
+				}
+				os.WriteFile(out+".mark", []byte(fmt.Sprintf("%-12d%-8d%s\n", c.progIdx.Load(), len(key), key)), 0o644)
+				if f, err := os.OpenFile(out+".viol", os.O_APPEND|os.O_CREATE|os.O_WRONLY, 0o644); err == nil {
+					for _, v := range c.res.Violations {
+						if b, err := json.Marshal(v); err == nil {
+							f.Write(append(b, '\n'))
+						}
+					}
+					f.Close()
+				}
+				c.checkpoint()
+				os.Exit(97)
+			}
+		}()
+	}
 	ch.Run(c)
 	c.markAt.Store(time.Now().Add(time.Hour).UnixNano())
+	c.progAt.Store(time.Now().Add(24 * time.Hour).UnixNano())
 	b, err := json.Marshal(&c.res)
 	if err != nil {
 		fmt.Fprintln(os.Stderr, "marshal result:", err)
@@ -593,7 +640,11 @@ func parent(ch *Check, tier, only string, seed int64, listFailing bool) int {
 						mark = string(mb[20 : 20+l])
 					}
 				}
-				if !ch.MarkCases || mark == "" || markIdx < from || restarts > 20000 {
+				stalled := false
+				if ee, ok := err.(*exec.ExitError); ok && ee.ExitCode() == 97 && !ch.MarkCases {
+					stalled = true
+				}
+				if (!ch.MarkCases && !stalled) || mark == "" || markIdx < from || restarts > 20000 {
 					r.err = err
 					break
 				}
@@ -604,6 +655,9 @@ func parent(ch *Check, tier, only string, seed int64, listFailing bool) int {
 				what := "worker process died (fatal runtime error) while running this case"
 				if ee, ok := err.(*exec.ExitError); ok && ee.ExitCode() == 97 {
 					what = fmt.Sprintf("the call did not return within %s", ch.CaseTimeout)
+					if stalled {
+						what = fmt.Sprintf("the case did not return within %s (blocked outside the VM: a lock left locked or a channel nobody serves)", StallTimeout)
+					}
 				}
 				r.crashes = append(r.crashes, Violation{Key: mark, What: what, Detail: map[string]any{"stderr": tail, "error": err.Error()}})
 				// keep the counters of the dead incarnation (last checkpoint; a lower bound)
@@ -615,6 +669,11 @@ func parent(ch *Check, tier, only string, seed int64, listFailing bool) int {
 					os.Remove(out + ".ckpt")
 				}
 				from = markIdx + 1
+				if stalled && time.Now().After(deadline) {
+					// out of budget: what the dead incarnations found is kept, the rest of the shard is not enumerated
+					r.res.Expired = true
+					break
+				}
 			}
 			if vb, e := os.ReadFile(out + ".viol"); e == nil {
 				for _, line := range bytes.Split(vb, []byte{'\n'}) {
